@@ -261,21 +261,30 @@ def run_impl(case, apis=("E", "V", "SE", "Ef", "Es")):
     d = dmr_string(case)
     kw = {"initial_statevector": isv, "desired_meas_result": d}
     out = {}
+    snap = None if isv is None else isv.copy()
+    out["isv_mutated_by"] = []
+
+    def callx(f):                      # the caller's initial_statevector array must come back unchanged from every call
+        r = call(f)
+        if snap is not None and not np.array_equal(isv, snap):
+            out["isv_mutated_by"].append(len([k for k in out if k in ("E", "V", "SE", "Ef", "Es")]))
+            isv[...] = snap                    # restore, so that the following calls are judged on their own
+        return r
     b = make_backend(case["backend"], case["shots"], case.get("noise", False))
     if "E" in apis:
-        out["E"] = call(lambda: b.get_expectation_value(op, circ, **kw))
+        out["E"] = callx(lambda: b.get_expectation_value(op, circ, **kw))
     out["trace"] = trace_of(b.calls)
     b.calls, b.vcalls = [], []
     if "V" in apis:
-        out["V"] = call(lambda: b.get_variance(op, circ, **kw))
+        out["V"] = callx(lambda: b.get_variance(op, circ, **kw))
         out["vtrace"] = ",".join(b.vcalls)
     if "SE" in apis:
-        out["SE"] = call(lambda: b.get_standard_error(op, circ, **kw))
+        out["SE"] = callx(lambda: b.get_standard_error(op, circ, **kw))
     if not case["ctype"]:
         if "Ef" in apis:
-            out["Ef"] = call(lambda: b._get_expectation_value_from_frequencies(op, circ, **kw))
+            out["Ef"] = callx(lambda: b._get_expectation_value_from_frequencies(op, circ, **kw))
         if "Es" in apis and case["shots"] is None and circ.size > 0:
-            out["Es"] = call(lambda: b._get_expectation_value_from_statevector(op, circ, **kw))
+            out["Es"] = callx(lambda: b._get_expectation_value_from_statevector(op, circ, **kw))
     out["cfg"] = {"noise": bool(case.get("noise", False)), "sv": True, "shots": case["shots"], "mixed": bool(circ.is_mixed_state),
                   "size0": circ.size == 0, "complex": bool(case["ctype"]), "native": case["backend"] != "generic",
                   "isv": isv is not None, "width_ok": all(len(t[0]) <= circ.width for t in case["op"])}
@@ -616,6 +625,7 @@ def check_sampled(ck, case, notes, apis=("E", "V", "SE")):
     rep = {"kind": "case", "case": jcase(case)}
     orc = oracle(case)
     impl = run_impl(case, apis=apis)
+    report_mutation(ck, case, impl)
     feat = case.get("variant", feature(case))
     record(ck, "sampled", case, orc, [feat])
     bound = sum(abs(coef_c(t)) for t in case["op"]) + 1e-9
@@ -827,7 +837,18 @@ def gen_history(rng, kind, n):
             steps.append(["delterm", which])
         # every mutation is followed by an evaluation of the mutated object with the arguments of an earlier call
         steps.append(["eval", which, rng.choice(["E", "E", "V"]), rng.randint(0, 1), 0])
-    return {"n": n, "backend": kind, "shots": rng.choice([None, None, 0]), "ctype": ctype, "circuits": circuits, "isv": isvs, "steps": steps}
+    # a circuit whose FIRST gate is a MEASURE (post-selected): used with the superposed initial statevector, which is the SAME
+    # array object for all calls of the history; evaluations on it are interleaved with the others
+    mq = rng.randrange(n)
+    mc = {"q": mq, "b": rng.randint(0, 1), "gates": clean(LC.rand_gate_list(rng, n, rng.randint(0, 3), LC.ALL_UNITARY, var_p=0.0))}
+    extra = []
+    for st in steps:
+        extra.append(st)
+        if st[0] == "eval" and rng.random() < 0.35:
+            extra.append(["eval", st[1], rng.choice(["E", "E", "V", "S"]), 2, 1])
+            extra.append(["eval", st[1], "E", rng.randint(0, 1), 1])          # the same array again, plain circuit
+    return {"n": n, "backend": kind, "shots": rng.choice([None, None, 0]), "ctype": ctype, "circuits": circuits, "isv": isvs, "steps": extra,
+            "mcirc": mc}
 
 
 def run_history(h):
@@ -837,7 +858,13 @@ def run_history(h):
     from tangelo.toolboxes.operators import QubitOperator
     n = h["n"]
     b = make_backend(h["backend"], h["shots"])
+    from tangelo.linq import Gate
     circs = [Circuit([LC.make_gate(g) for g in gs], n_qubits=n) for gs in h["circuits"]]
+    mc = h.get("mcirc")
+    if mc is not None:
+        circs.append(Circuit([Gate("MEASURE", mc["q"])] + [LC.make_gate(g) for g in mc["gates"]], n_qubits=n))
+    user_isv = NS.to_lsq_first(NS.run(gates_np(h["isv"][1]), n), n).astype(np.complex128)      # ONE array, reused by every call
+    snap = user_isv.copy()
     ops, vals, last = {}, {}, {0: "new", 1: "new"}
 
     def num(re_, im_):
@@ -880,14 +907,30 @@ def run_history(h):
             last[which] = kind
             continue
         api, ci, use_isv = st[2], st[3], st[4]
-        case = {"n": n, "prefix": h["isv"][1] if use_isv else [], "pass_isv": bool(use_isv), "segs": [[h["circuits"][ci], None]],
+        segs = [[h["circuits"][ci], None]] if ci < 2 else [[[], [mc["q"], mc["b"]]], [mc["gates"], None]]
+        case = {"n": n, "prefix": h["isv"][1] if use_isv else [], "pass_isv": bool(use_isv), "segs": segs,
                 "op": [[[list(f_) for f_ in k], v[0], v[1]] for k, v in vals[which].items()], "ctype": h["ctype"], "backend": h["backend"],
-                "shots": h["shots"], "dmr": None}
+                "shots": h["shots"], "dmr": None if ci < 2 else "given"}
         orc = oracle(case)
-        isv = NS.to_lsq_first(NS.run(gates_np(h["isv"][1]), n), n) if use_isv else None
-        f = b.get_expectation_value if api == "E" else b.get_variance
-        r = call(lambda: f(ops[which], circs[ci], initial_statevector=isv))
-        out.append((i, api, r, orc["E"] if api == "E" else orc["V"], last[which], orc["near_threshold"]))
+        if orc["n_branches"] == 0 or (ci == 2 and h["shots"] == 0):
+            continue                                   # impossible desired outcome / mixed circuit with n_shots = 0: not this stream's business
+        isv = user_isv if use_isv else None
+        kw = {"initial_statevector": isv}
+        if ci == 2:
+            kw["desired_meas_result"] = str(mc["b"])
+        if api == "S":
+            r = call(lambda: b.simulate(circs[ci], **kw)[0].get("0" * n, 0.0))
+            want, api_name = None, "simulate"
+        else:
+            f = b.get_expectation_value if api == "E" else b.get_variance
+            r = call(lambda: f(ops[which], circs[ci], **kw))
+            want, api_name = (orc["E"] if api == "E" else orc["V"]), api
+        if not np.array_equal(user_isv, snap):
+            out.append((i, "M:" + api_name, r, want, last[which], False))
+            user_isv[...] = snap
+            continue
+        if api != "S":
+            out.append((i, api, r, want, last[which], orc["near_threshold"]))
     return out
 
 
@@ -908,6 +951,12 @@ def stream_history(ck):
                 sample={"backend": h["backend"], "shots": h["shots"], "steps": [s_[0] for s_ in h["steps"]]},
                 tags=[h["backend"], "complex" if h["ctype"] else "real", "evals=%d" % len(res)])
         for (i, api, r, want, lastmut, near) in res:
+            if api.startswith("M:"):
+                nm = {"E": "get_expectation_value", "V": "get_variance"}.get(api[2:], api[2:])
+                ck.violation("C02/history/%s/%s/initial_statevector-modified-in-place" % (h["backend"], nm),
+                             "step %d of a history: %s changed the caller's initial_statevector array (complex128 ndarray reused by the following calls) in place" % (i, nm),
+                             {"kind": "history", "history": dict(h, steps=h["steps"][:i + 1])})
+                break
             if near and (api == "V" or h["shots"] == 0):
                 continue
             if not (r[0] == "ok" and close(r[1], want, 1e-8 if api == "V" else TOL)):
@@ -932,11 +981,27 @@ def guarded(ck, name, f, *args):
         return None
 
 
+API_NAMES = {"E": "get_expectation_value", "V": "get_variance", "SE": "get_standard_error", "Ef": "_get_expectation_value_from_frequencies",
+             "Es": "_get_expectation_value_from_statevector"}
+
+
+def report_mutation(ck, case, impl):
+    """The caller's initial_statevector array was modified by a call: every later evaluation with that array is wrong."""
+    done = [k for k in ("E", "V", "SE", "Ef", "Es") if k in impl]
+    for idx in impl.get("isv_mutated_by", []):
+        api = API_NAMES[done[idx]] if idx < len(done) else "call"
+        ck.violation("C02/%s/%s/initial_statevector-modified-in-place/%s" % (api, case["backend"], feature(case)),
+                     "%s changed the caller's initial_statevector array in place (%s): a later evaluation that reuses the array sees another state"
+                     % (api, feature(case)), {"kind": "case", "case": jcase(case), "check": "initial_statevector unchanged"})
+
+
 def safe_impl(ck, stream, case, apis=("E", "V", "SE", "Ef", "Es")):
     """run_impl; an exception outside the API calls proper (building the operator / circuit / backend inside tangelo)
     is a violation carrying the case."""
     try:
-        return run_impl(case, apis=apis)
+        impl = run_impl(case, apis=apis)
+        report_mutation(ck, case, impl)
+        return impl
     except Exception as e:                                              # noqa
         ck.violation("C02/%s/%s/exception-while-building-case" % (stream, case["backend"]),
                      "tangelo raised %s: %s while building / running a generated case" % (type(e).__name__, str(e)[:200]),
@@ -1295,6 +1360,9 @@ def replay(data):
         print("oracle : E=%r V=%r deterministic=%s" % (orc["E"], orc["V"], orc["deterministic"]))
         print("impl   : E=%s V=%s SE=%s routes=%r" % (impl.get("E"), impl.get("V"), impl.get("SE"), impl.get("trace")))
         bad = 0
+        if impl.get("isv_mutated_by"):
+            print("the caller's initial_statevector array was modified in place")
+            bad = 1
         if case["shots"] in (None, 0) or orc["deterministic"]:
             for api, want in (("E", orc["E"]), ("V", orc["V"] if case["shots"] in (None, 0) else 0.0)):
                 x = impl.get(api)
@@ -1310,6 +1378,10 @@ def replay(data):
     if r.get("kind") == "history":
         bad = 0
         for (i, api, x, want, lastmut, near) in run_history(r["history"]):
+            if api.startswith("M:"):
+                print("step %d: %s modified the caller's initial_statevector array in place   <-- differs" % (i, api[2:]))
+                bad = 1
+                continue
             ok = x[0] == "ok" and abs(x[1] - want) <= 1e-8
             print("step %d %s after %s: impl %s, exact %r%s" % (i, api, lastmut, x[1:] if x[0] == "exc" else x[1], want, "" if ok else "   <-- differs"))
             bad |= (not ok)
